@@ -149,9 +149,12 @@ theorem stepEv_rel (g : Gen S) (t : ToolPhases) (c : RunCmd) (s : Int) (hs : c.s
         simp only [hf', Bool.false_eq_true, if_false]
         exact ⟨ho, hr⟩
     · simp [hk] at ht
-  | headerCmdline =>
-    simp [taintStep] at ht; subst ht
-    exact ⟨by simp [stepEv, ho], hr⟩
+  | headerCmdline pre =>
+    simp only [taintStep] at ht
+    split at ht
+    · cases ht
+    · cases ht
+      exact ⟨by simp [stepEv, ho], hr⟩
   | output how =>
     simp [taintStep] at ht; subst ht
     exact ⟨ho, hr⟩
@@ -214,7 +217,7 @@ theorem stepEv_hdr (g : Gen S) (t : ToolPhases) (c : RunCmd) (h : Hidden S) (st 
   | headerSeed gd v =>
     simp only [stepEv, hdrStep]
     split <;> rfl
-  | headerCmdline => simp [stepEv, hdrStep]
+  | headerCmdline pre => simp [stepEv, hdrStep]
   | output how => simp [stepEv, hdrStep]
 
 theorem runFrom_hdr (g : Gen S) (t : ToolPhases) (c : RunCmd) (h : Hidden S) (evs : List Ev) :
